@@ -280,7 +280,7 @@ pub fn link_cores(cores: Vec<CoreUnit>) -> Result<LinkOutput, CompilationError> 
         return Err(compile_error("no core inputs provided".to_string()));
     }
 
-    let mut by_name = HashMap::new();
+    let mut by_name = BTreeMap::new();
     for core in cores {
         if by_name.contains_key(&core.package) {
             return Err(compile_error(format!(
@@ -373,7 +373,7 @@ pub fn link_cores(cores: Vec<CoreUnit>) -> Result<LinkOutput, CompilationError> 
     })
 }
 
-fn topo_sort(cores: &HashMap<String, CoreUnit>) -> Result<Vec<String>, CompilationError> {
+fn topo_sort(cores: &BTreeMap<String, CoreUnit>) -> Result<Vec<String>, CompilationError> {
     use std::collections::BTreeSet;
 
     let mut indeg: BTreeMap<String, usize> = BTreeMap::new();
